@@ -371,13 +371,19 @@ func child() {
 	start, _ := strconv.Atoi(os.Args[3])
 	w := bufio.NewWriter(os.Stdout)
 	var mu sync.Mutex
-	cur := start
+	cur, curBig := start, false
 	go func() { // memory watchdog
 		for {
 			time.Sleep(50 * time.Millisecond)
 			var ms runtime.MemStats
 			runtime.ReadMemStats(&ms)
-			if ms.HeapAlloc > memLimit {
+			mu.Lock()
+			lim := uint64(memLimit)
+			if curBig {
+				lim = 12 << 30 // inputs beyond 64 KiB: only a runaway counts
+			}
+			mu.Unlock()
+			if ms.HeapAlloc > lim {
 				mu.Lock()
 				b, _ := json.Marshal(compRes{I: cur, Mem: true})
 				w.Write(b)
@@ -388,10 +394,10 @@ func child() {
 		}
 	}()
 	for i := start; i < len(inputs); i++ {
-		mu.Lock()
-		cur = i
-		mu.Unlock()
 		src := vlib.UnQ(inputs[i])
+		mu.Lock()
+		cur, curBig = i, len(src) > sizeLimit
+		mu.Unlock()
 		lim := timeLimit
 		if len(src) > sizeLimit {
 			lim = 120 * time.Second
@@ -884,6 +890,77 @@ func wildProgram(rng *vlib.Rand) string {
 	return b.String()
 }
 
+// decorator definitions that use earlier decorators: nested (`@d { @d { next } }`)
+// or in sequence (`@d { c++ } @d { c++ } next`), fan k, depth n
+func decoChain(n, fan int, nested bool) string {
+	var b strings.Builder
+	b.WriteString("counter c\ndef d0 {\n  /x/ {\n    next\n  }\n}\n")
+	for i := 1; i <= n; i++ {
+		fmt.Fprintf(&b, "def d%d {\n", i)
+		if nested {
+			for j := 0; j < fan; j++ {
+				fmt.Fprintf(&b, "%s@d%d {\n", strings.Repeat("  ", j+1), i-1)
+			}
+			fmt.Fprintf(&b, "%snext\n", strings.Repeat("  ", fan+1))
+			for j := fan - 1; j >= 0; j-- {
+				fmt.Fprintf(&b, "%s}\n", strings.Repeat("  ", j+1))
+			}
+		} else {
+			for j := 0; j < fan-1; j++ {
+				fmt.Fprintf(&b, "  @d%d {\n    c++\n  }\n", i-1)
+			}
+			fmt.Fprintf(&b, "  @d%d {\n    next\n  }\n", i-1)
+		}
+		b.WriteString("}\n")
+	}
+	fmt.Fprintf(&b, "@d%d {\n  c++\n}\n", n)
+	return b.String()
+}
+
+func decoChainPrograms() (r []string) {
+	for _, n := range []int{1, 2, 4, 8, 10, 12, 13, 14, 16, 18, 20, 40, 200} {
+		for _, fan := range []int{1, 2, 3} {
+			r = append(r, decoChain(n, fan, true), decoChain(n, fan, false))
+		}
+	}
+	return r
+}
+
+// a decorator used inside its own decorated block, then lookups that hit and
+// that miss: later declarations, const patterns, undeclared identifiers
+func decoSelfNestedPrograms() (r []string) {
+	defs := []string{"def s {\n  /x/ {\n    next\n  }\n}\n", "def s {\n  /(?P<v>\\d+)/ {\n    next\n  }\n}\n", "def s {\n  next\n}\n"}
+	uses := []string{"@s {\n  @s {\n    c++\n  }\n}\n", "@s {\n  @s {\n    @s {\n      c++\n    }\n  }\n  c++\n}\n", "@s {\n  c++\n}\n@s {\n  @s {\n    c++\n  }\n}\n"}
+	afters := []string{"", "counter late\n/y/ {\n  late++\n}\n", "/y/ {\n  nosuch++\n}\n", "const P /p/\n/y/ + P {\n  c++\n}\n",
+		"@nosuch {\n  c++\n}\n", "def t {\n  @s {\n    @s {\n      next\n    }\n  }\n}\n@t {\n  c++\n  nosuch2++\n}\n", "gauge g by k\n/(\\w+)/ {\n  g[$1] = undeclared\n}\n"}
+	for _, d := range defs {
+		for _, u := range uses {
+			for _, a := range afters {
+				r = append(r, "counter c\n"+d+u+a, "counter c\n"+d+a+u)
+			}
+		}
+	}
+	return r
+}
+
+// declarations with extreme attribute values
+func declExtremePrograms() (r []string) {
+	lims := []string{"0", "1", "-1", "2147483647", "2147483648", "4294967296", "9223372036854775807", "-9223372036854775808", "9223372036854775808"}
+	for _, l := range lims {
+		for _, k := range []string{"counter", "gauge", "histogram", "text", "timer"} {
+			r = append(r, k+" foo by a limit "+l+"\n/(x)/ {\n  foo[$1]++\n}\n",
+				k+" foo limit "+l+"\n/(x)/ {\n  foo++\n}\n")
+		}
+	}
+	for _, bk := range []string{"0", "-1, 0, 1", "1e308, 1e309", "1e-320", "3, 2, 1", "1, 1, 1", "9223372036854775807", "0.0, -0.0", "1" + strings.Repeat(", 1", 2000)} {
+		r = append(r, "histogram h buckets "+bk+" by a\n/(\\d+)/ {\n  h[$1] = $1\n}\n", "counter h buckets "+bk+"\n/(\\d+)/ {\n  h = $1\n}\n")
+	}
+	r = append(r, "counter foo by a, a, a\n/(x)/ {\n  foo[$1][$1][$1]++\n}\n",
+		"counter foo as \"\" by \"\"\n/(x)/ {\n  foo[$1]++\n}\n",
+		"hidden hidden counter foo\n", "counter foo by a limit 1 limit 2 by b\n/(x)/ {\n  foo[$1]++\n}\n")
+	return r
+}
+
 // const fragments built from earlier fragments: fan k, depth n
 func constChain(n, fan int, use string) string {
 	var b strings.Builder
@@ -1113,6 +1190,25 @@ func main() {
 	for i := 0; i < nw; i++ {
 		cins = append(cins, cin{wildProgram(rng), "wild-program"})
 	}
+	for _, p := range decoChainPrograms() {
+		cins = append(cins, cin{p, "deco-chain"})
+	}
+	for _, p := range decoSelfNestedPrograms() {
+		cins = append(cins, cin{p, "deco-self-nested"})
+	}
+	for _, p := range declExtremePrograms() {
+		cins = append(cins, cin{p, "decl-extremes"})
+	}
+	if a.Thorough() {
+		// far beyond 64 KiB: only a crash (or a hang) counts here; a goroutine
+		// stack overflow is fatal and shows as the death of the child process
+		for _, x := range []struct {
+			shape string
+			n     int
+		}{{"not", 1000000}, {"not", 4000000}, {"block", 2000000}, {"paren", 3000000}, {"plus", 3000000}, {"else", 1000000}, {"postfix", 3000000}, {"concat", 1000000}, {"index", 2000000}} {
+			cins = append(cins, cin{nest(x.shape, x.n), fmt.Sprintf("deepnest/%s/%d", x.shape, x.n)})
+		}
+	}
 	for _, p := range constChainPrograms(a.Thorough()) {
 		cins = append(cins, cin{p, "const-chain"})
 	}
@@ -1225,6 +1321,11 @@ func replay(path string) {
 	switch v.Case["kind"] {
 	case "nest":
 		src = nest(v.Case["shape"].(string), int(v.Case["n"].(float64)))
+	case "deco-chain":
+		nested, _ := v.Case["nested"].(bool)
+		src = decoChain(int(v.Case["n"].(float64)), int(v.Case["fan"].(float64)), nested)
+	case "const-chain":
+		src = constChain(int(v.Case["n"].(float64)), int(v.Case["fan"].(float64)), "/y/ + A%d {\n  c++\n}\n")
 	default:
 		s, _ := v.Case["src"].(string)
 		src = vlib.UnQ(s)
